@@ -294,10 +294,9 @@ public:
         requires(detail::is_transparent_v<key_compare>)
     [[nodiscard]] constexpr auto find(K const& x) -> iterator
     {
-        return find_if(begin(), end(), [&x](auto const& val) {
-            auto comp = key_compare();
-            return comp(val, x);
-        });
+        auto comp = key_compare();
+        auto pos  = etl::lower_bound(begin(), end(), x, comp);
+        return (pos != end() and not comp(x, *pos)) ? pos : end();
     }
 
     /// \brief Finds an element with key that compares equivalent to the value
@@ -306,10 +305,9 @@ public:
         requires(detail::is_transparent_v<key_compare>)
     [[nodiscard]] constexpr auto find(K const& x) const -> const_iterator
     {
-        return find_if(cbegin(), cend(), [&x](auto const& val) {
-            auto comp = key_compare();
-            return comp(val, x);
-        });
+        auto comp = key_compare();
+        auto pos  = etl::lower_bound(cbegin(), cend(), x, comp);
+        return (pos != cend() and not comp(x, *pos)) ? pos : cend();
     }
 
     /// \brief Checks if there is an element with key equivalent to key in the
